@@ -131,6 +131,18 @@ def generate(rng, repo_root, config="A", opts=None):
     # id()-keyed memos, arrays kept by reference) is reachable.  References always get private copies.
     if rng.random() < 0.4:
         scn["share_arrays"] = True
+    # simulate bursts: one read, then 8-40 consecutive simulates with nobody looking, then reads again - the shape
+    # that lets state tagged with something recyclable (an id(), a counter that wraps, a bounded cache) go stale
+    if rng.random() < (0.03 if opts.get("tier") == "thorough" else 0.015) and objs[0]["cls"] != "MultiPhaseReservoir":
+        nburst = rng.choice([8, 12, 20, 30, 40])
+        head = [_draw_plain_op(rng, rng.choice(["simA", "simB", "simC"]), 0, objs[0], fluids, grids),
+                _draw_plain_op(rng, rng.choice(["rf", "rfd", "interp"]), 0, objs[0], fluids, grids)]
+        burst = [_draw_plain_op(rng, rng.choice(["simA", "simB", "simC"]), 0, objs[0], fluids, grids) for _ in range(nburst)]
+        tail = [_draw_plain_op(rng, rng.choice(["rf", "rfd", "interp"]), 0, objs[0], fluids, grids) for _ in range(rng.choice([1, 2, 3]))]
+        for op in head + burst + tail:
+            op.pop("container", None)
+        scn["ops"] = ops = head + burst + tail
+        scn["shape"] = "burst"
     # twin objects: two reservoirs built from EQUAL constructor arguments (same class, nx, pressures, the same
     # shared fluid object) - state keyed on an object's value instead of its identity (dataclass __eq__/__hash__,
     # memo keys made of field values) is only reachable this way
@@ -520,6 +532,8 @@ class Runner:
         nobj = len(objs)
         if scn.get("twin_objects"):
             self.probe("twin_objects_equal_constructor_arguments")
+        if scn.get("shape") == "burst":
+            self.probe("simulate_burst_between_reads")
         cands = [[] for _ in range(nobj)]        # live reference candidates per object
         completed = [False] * nobj               # a simulate has completed on the reference side
         pending_fail = [False] * nobj            # last simulate attempt failed / was cut short
